@@ -24,6 +24,10 @@ type pipeSendPlan struct {
 }
 
 func pipeWorld(r *R) {
+	if r.Choose(8, "several-pipes") == 7 {
+		pipeSeveral(r)
+		return
+	}
 	buf := []int{0, 1, 1, 2, 3}[r.Choose(5, "buf")]
 	nSenders := 1 + r.Choose(3, "senders")
 	root := NewCtx(nil, "root")
